@@ -4,9 +4,9 @@ ID = "C10"
 LEVEL = "model_checking"
 HARNESS = ["c10_parts.cpp"]
 MODULE = "c10"
-ENTRIES = ("h_parts", "h_weights", "h_split", "h_partlabels")
+ENTRIES = ("h_parts", "h_weights", "h_split", "h_partlabels", "h_parts_direct")
 BOUNDS = {
-    "quick": {"(a) topology+labels": "OB/FO3/SK/SSE, 3-4 vertices, 1-2 triangles with symbolic corners (distinct, non-degenerate), 2 bones, symbolic partition id per triangle in [-1, #partitions] (unassigned and out-of-range included); SetShapePartitions, UpdateSkinPartitions, GetShapePartitions, RemoveEmptyPartitions, SetDefaultPartition", "(b) weights": "symbolic float weights in [0,1] (incl. zero) per (bone,vertex), 3 vertices, 1-2 bones, concrete topology", "(c) bone limit": "6 vertices, 4 triangles, 24 bones (4 per vertex, disjoint bone sets per triangle pair): forces the 18-bone split for OB/FO3; symbolic partition per triangle"},
+    "quick": {"(a) topology+labels": "OB/FO3/SK/SSE, 3-4 vertices, 1-2 triangles with symbolic corners (distinct, non-degenerate), 2 bones, symbolic partition id per triangle in [-1, #partitions] (unassigned and out-of-range included); SetShapePartitions, UpdateSkinPartitions, GetShapePartitions, RemoveEmptyPartitions, SetDefaultPartition", "(b) weights": "symbolic float weights in [0,1] (incl. zero) per (bone,vertex), 3 vertices, 1-2 bones, concrete topology", "(c) bone limit": "6 vertices, 4 triangles, 24 bones (4 per vertex, disjoint bone sets per triangle pair): forces the 18-bone split for OB/FO3; symbolic partition per triangle", "(d) direct": "SetShapePartitions followed directly by save+reload / RemoveEmptyPartitions (no rebuild in between), 6 vertices / 4 triangles, symbolic labels in [0,3), also with partitions stored as strips (OB/FO3/SK)"},
     "thorough": {"(a) topology+labels": "4 vertices, 2 triangles, 3 partitions, all four versions", "(b) weights": "3-4 vertices, 2 bones", "(c) bone limit": "as quick"},
 }
 ASSUMPTIONS = [
@@ -32,6 +32,11 @@ def jobs(tier, seed):
         if not q:
             J.append(dict(entry="h_parts", args=[ver, 4, 2, 2, 3], budget=1800))
         J.append(dict(entry="h_split", args=[ver, 0], budget=160 if q else 900))
+    for ver in (OB, FO3, SK, SSE):
+        for mode in (0, 1, 2):
+            if mode == 2 and ver == SSE:
+                continue
+            J.append(dict(entry="h_parts_direct", args=[ver, 3, mode], budget=100 if q else 600))
     for ver in ((SSE, FO3) if q else (OB, FO3, SK, SSE)):
         J.append(dict(entry="h_weights", args=[ver, 3, 1], budget=160 if q else 1200))
         if not q:
